@@ -2602,7 +2602,8 @@ THEOREMS += ['routes_filter', 'gen_unpack_routing_table_entry']   # translator t
 # translator tie, sixth round (Props/C10Gen.lean over Gen/PyFunTables.lean, harness/gen/pydo.py): the body of
 # routing_tree_to_tables is regenerated from the source on every run and proved equal to the model `treeTables`
 THEOREMS += ['natProp_opposite', 'gen_step_core', 'gen_step', 'gen_stepAll', 'gen_processNet', 'gen_processNets',
-             'gen_loop4', 'gen_loop3', 'gen_loop3_all', 'gen_tables_of', 'gen_tree_tables']
+             'gen_loop4', 'gen_loop3', 'gen_loop3_all', 'gen_tables_of', 'gen_tree_tables',
+             'errPy_injective', 'tablesPy_injective', 'resPy_injective', 'gen_tables_spec']
 CLAIM["text"] += (
     " TRANSLATOR TIE of the first clause (sixth translator round): the whole body of routing_tree_to_tables - the loop "
     "over the nets, key, mask = net_keys[net], the loop over the items yielded by tree.traverse(), in_direction / "
@@ -2616,7 +2617,8 @@ CLAIM["text"] += (
     "the same order (chips in order of first visit, entries in order of creation, route / sources as built) or the same "
     "exception with the same arguments; so tables_exact, multisource_iff and tables_spec are statements about the code "
     "as it is written today. gen_step is the per-node update (incl. the multi-source test and the merge), gen_stepAll / "
-    "gen_processNet / gen_processNets the two loops, gen_tables_of the final conversion.")
+    "gen_processNet / gen_processNets the two loops, gen_tables_of the final conversion; gen_tables_spec states the first "
+    "clause (TablesSpec) directly of the generated function, and the comparison loses nothing (resPy_injective).")
 CLAIM["note"] += (
     " Translator tie of routing_tree_to_tables: what stays under the differential correspondence only is (1) "
     "RoutingTree.traverse itself (a generator over an object graph; hand model `traverse`, theorem traverse_exact) - the "
